@@ -61,6 +61,9 @@ pub enum P {
     SpawnChain(S, S),
     /// async: req a; then the task fires its own command's abort handle and emits nothing
     QuietSelfAbort(S),
+    /// async: join!(req a, async { v = req b; spawn(notify n with v) }); event(a)   (a task that spawns in
+    /// the very poll in which it may turn out to be abandoned)
+    JoinSpawn(S, S, S),
     /// `request(a).map(f).then_send(got)`
     ReqMap(S),
     /// `stream(a).map(f).then_send(got)`
@@ -150,7 +153,8 @@ impl P {
             | P::Join(a, b) | P::Select(a, b) | P::SpawnJoin(a, b) | P::SpawnAfter(a, b) | P::Burst(a, b) | P::Channel(a, b)
             | P::Unordered(a, b) | P::JoinTwice(a, b) | P::MixedNotify(a, b) | P::AbortSpawned(a, b) | P::SelfAbort(a, b)
             | P::StreamUntil(a, b) | P::SpawnChain(a, b) => vec![a, b],
-            P::AbortChild(a, b, c) | P::IntoFuture(a, b, c) | P::JoinReq(a, b, c) | P::SelectJoinReq(a, b, c) | P::HandOff(a, b, c) => vec![a, b, c],
+            P::AbortChild(a, b, c) | P::IntoFuture(a, b, c) | P::JoinReq(a, b, c) | P::SelectJoinReq(a, b, c) | P::HandOff(a, b, c)
+            | P::JoinSpawn(a, b, c) => vec![a, b, c],
             _ => vec![],
         }
     }
@@ -253,6 +257,7 @@ pub fn async_atoms() -> Vec<P> {
         P::StreamUntil(s0(), s0()),
         P::SpawnChain(s0(), s0()),
         P::HandOff(s0(), s0(), s0()),
+        P::JoinSpawn(s0(), s0(), s0()),
         P::SelectJoinReq(s0(), s0(), s0()),
     ]
 }
